@@ -171,7 +171,7 @@ func kaRunAll(c *hx.Ctx, cases []kaCase) {
 			bad++
 			c.Emit("direct ka_order %s FAIL events=%s (expected Receive Setup SetReadTimeout Send Restore Receive …)", strings.Replace(cs.text(), " ", ",", -1), out[i].order)
 		}
-		if i%70001 == 17 {
+		if i%150001 == 17 {
 			c.Sample(kaLine(cs, out[i]) + " order=" + out[i].order)
 		}
 	}
